@@ -228,7 +228,7 @@ NOT_APPLICABLE = {
 ADDENDA = {
     "C34": " Also: the caller's resolvers are handed to every instruction unchanged, or consulted without a short-circuiting adaptor: every placeholder is asked.",
     "C14": " Also: the value returned for a parameterised gate is the table function's result for every angle (no special-cased angle).",
-    "C16": " Also: has_signature is an equality of the whole signature (no is_some / len / prefix comparisons of a component).",
+    "C16": " Also: has_signature is an equality of the whole signature (no is_some / len / prefix comparisons of a component). The whole-signature comparisons of matches reject on the side where the two values differ (polarity).",
     "C28": " Also: exactly JUMP, JUMP-WHEN, JUMP-UNLESS and HALT (and LABEL, which starts the next one) close a block. The offset increment has a literal + 1 exactly at the sites that close a block on a terminator instruction.",
     "C22": " Also: the BlockStart edge of a classical instruction is decided by whether a memory edge was actually drawn into it (flag cleared under the self-edge guard, or computed from that comparison). The self-edge guard is polarity-aware: memory edges are drawn on the side where the dependency is a different node.",
     "C02": " Also: a present optional field is printed whatever it contains (no Some-discarding adaptor, emission controlled only by the Option being Some); a writer that separates elements with commas has a parser accepting COMMA.",
